@@ -473,6 +473,7 @@ type GhostDecl struct {
 	Ret    string
 	Pkg    string
 	Immutable bool
+	History  bool // "history": records what callees reported; exempt from frame checks
 	HasRange bool // "range lo hi": every value of the ghost lies in [lo, hi)
 	Lo, Hi   int64
 }
@@ -768,6 +769,11 @@ func (cs *ContractSet) loadContractFile(path string, pkgPath string, trusted boo
 			}
 			if len(f) > 1 && f[1] == "immutable" {
 				g.Immutable = true
+			}
+			for _, w := range f[1:] {
+				if w == "history" {
+					g.History = true
+				}
 			}
 			for k := 1; k+2 < len(f); k++ {
 				if f[k] == "range" {
